@@ -5,6 +5,8 @@
 //!   {"op":"announce","k":key,"a":addr,"s":secs,"n":nanos}
 //!   {"op":"stash"}      remember the current book and the set of announcements seen in this case
 //!   {"op":"converge"}   compare the current book / seen set with the stashed ones
+//!   {"op":"contended","calls":[update|announce ..],"poll":[i..]}   the calls overlap: they queue on the book's lock (held by
+//!                       the harness) in the listed order, then run to completion polled in the order `poll`
 //!   {"op":"seq","reset":true,"ops":[..]}              a whole case as one op (replay files)
 //! `A` is realised as a genuinely BLS-signed value: `sb` signs the message `sm`, the announcement claims key `k`
 //! and message `m` (forged iff sb != k or sm != m). Keys / addresses are small integer ids.
@@ -229,6 +231,7 @@ impl C18 {
                 json!({"class": "stash", "ok": true, "book": Self::book_json(&list)})
             }
             "converge" => self.exec_converge(out),
+            "contended" => self.exec_contended(op, out),
             _ => json!({"bad_op": true}),
         }
     }
@@ -398,6 +401,202 @@ impl C18 {
             }
         }
         json!({"class": "announce", "ok": true, "notified": notified, "wrap": wrap, "book": Self::book_json(&after)})
+    }
+
+    /// k update()/announce() calls that overlap: the harness holds the book's sender lock (like an in-flight
+    /// handler), polls every call once so that they queue on the fair FIFO lock in the listed order, releases the
+    /// lock and polls them to completion in the seeded order `poll`. The model applies the calls atomically in
+    /// queue order.
+    fn exec_contended(&mut self, op: &Value, out: &mut Out) -> Value {
+        use std::{future::Future, pin::Pin, task::{Context, Poll, Waker}};
+        enum Call {
+            Update { vs: Vec<usize>, batch: Vec<AAnn>, data: Vec<SignedAddr>, schedule: validator::Schedule },
+            Announce { k: usize, a: u64, s: i64, n: i32 },
+        }
+        let mut calls = vec![];
+        for c in op["calls"].as_array().expect("calls") {
+            match c["op"].as_str().unwrap_or("") {
+                "update" => {
+                    let vs: Vec<usize> = c["vs"].as_array().expect("vs").iter().map(|x| x.as_u64().unwrap() as usize).collect();
+                    let batch: Vec<AAnn> = c["batch"].as_array().expect("batch").iter().map(AAnn::parse).collect();
+                    let data: Vec<SignedAddr> = batch.iter().map(|a| self.realise(a)).collect();
+                    let schedule = self.schedule(&vs);
+                    match &self.case_vs {
+                        None if self.case_ops.len() == 1 => self.case_vs = Some(vs.clone()),
+                        Some(v) if *v == vs => {}
+                        _ => self.case_mixed = true,
+                    }
+                    calls.push(Call::Update { vs, batch, data, schedule });
+                }
+                "announce" => {
+                    self.case_mixed = true;
+                    calls.push(Call::Announce {
+                        k: c["k"].as_u64().expect("k") as usize,
+                        a: c["a"].as_u64().expect("a"),
+                        s: c["s"].as_i64().expect("s"),
+                        n: c["n"].as_i64().expect("n") as i32,
+                    });
+                }
+                _ => return json!({"bad_op": true}),
+            }
+        }
+        let n = calls.len();
+        let mut poll: Vec<usize> = op["poll"].as_array().map(|a| a.iter().map(|x| x.as_u64().unwrap() as usize).filter(|&i| i < n).collect()).unwrap_or_default();
+        for i in 0..n {
+            if !poll.contains(&i) {
+                poll.push(i);
+            }
+        }
+        let input = self.case_input();
+        let (before, before_raw) = self.snapshot(out, &input);
+        let _ = self.book.take_notified();
+        let outcome = {
+            let (book, rt, keys, calls) = (&self.book, &self.rt, &self.keys, &calls);
+            catch(|| {
+                let _enter = rt.enter();
+                let guard = rt.block_on(book.hold_lock());
+                let mut futs: Vec<Pin<Box<dyn Future<Output = Result<(), String>> + '_>>> = calls
+                    .iter()
+                    .map(|c| -> Pin<Box<dyn Future<Output = Result<(), String>> + '_>> {
+                        match c {
+                            Call::Update { data, schedule, .. } => Box::pin(async move { book.update(schedule, data).await.map_err(|e| format!("{e:#}")) }),
+                            Call::Announce { k, a, s, n } => Box::pin(async move {
+                                book.announce(&keys[*k], addr_of(*a), utc_of(*s, *n)).await;
+                                Ok(())
+                            }),
+                        }
+                    })
+                    .collect();
+                let waker = Waker::noop();
+                let mut cx = Context::from_waker(waker);
+                let mut results: Vec<Option<Result<(), String>>> = vec![None; n];
+                let mut early = 0usize;
+                // first poll in the listed order: the calls queue on the lock in this order
+                for i in 0..n {
+                    if let Poll::Ready(r) = futs[i].as_mut().poll(&mut cx) {
+                        results[i] = Some(r);
+                        early += 1;
+                    }
+                }
+                drop(guard);
+                for _round in 0..n + 2 {
+                    for &i in &poll {
+                        if results[i].is_none() {
+                            if let Poll::Ready(r) = futs[i].as_mut().poll(&mut cx) {
+                                results[i] = Some(r);
+                            }
+                        }
+                    }
+                    if results.iter().all(|r| r.is_some()) {
+                        break;
+                    }
+                }
+                (results, early)
+            })
+        };
+        let (results, early) = match outcome {
+            Ok(x) => x,
+            Err(site) => {
+                out.oracle_fail(&site, "overlapping update/announce calls panicked", input);
+                // the lock guard may have been leaked by the unwinding: start from a fresh book
+                return json!({"panic": site});
+            }
+        };
+        let notified = self.book.take_notified();
+        let (after, after_raw) = self.snapshot(out, &input);
+        if results.iter().any(|r| r.is_none()) {
+            out.oracle_fail("contended_stuck", "an update/announce call did not complete after the lock was released", input.clone());
+            return json!({"class": "contended", "stuck": true, "book": Self::book_json(&after)});
+        }
+        let results: Vec<Result<(), String>> = results.into_iter().map(|r| r.unwrap()).collect();
+        let classes: Vec<&str> = calls
+            .iter()
+            .zip(&results)
+            .map(|(c, r)| match (c, r) {
+                (Call::Announce { .. }, _) => "announce",
+                (_, Ok(())) => "ok",
+                (_, Err(e)) if e.contains("duplicate entry") => "dup",
+                (_, Err(_)) => "badsig",
+            })
+            .collect();
+        out.count(&format!("contended:k={n}"));
+        if early > 0 {
+            out.count("contended:completed_while_lock_held");
+        }
+        for c in &classes {
+            out.count(&format!("contended_call:{c}"));
+        }
+
+        // ---------------- monitors: whatever the interleaving, the calls must look atomic ----------------
+        let announced: Vec<usize> = calls.iter().filter_map(|c| if let Call::Announce { k, .. } = c { Some(*k) } else { None }).collect();
+        let bmap: BTreeMap<usize, &(usize, AMsg, bool)> = before.iter().map(|e| (e.0, e)).collect();
+        let amap: BTreeMap<usize, &(usize, AMsg, bool)> = after.iter().map(|e| (e.0, e)).collect();
+        let ord = |e: &(usize, AMsg, bool)| (e.1 .1, e.1 .2, e.1 .3);
+        for e in &after {
+            if !e.2 {
+                out.oracle_fail("stored_not_authentic", "the book holds an announcement whose signature does not verify (overlapping calls)", input.clone());
+            }
+        }
+        for (k, b) in &bmap {
+            match amap.get(k) {
+                None => out.oracle_fail("entry_removed", "an entry disappeared from the book (overlapping calls)", input.clone()),
+                Some(a) => {
+                    if !announced.contains(k) && ord(a) < ord(b) {
+                        out.oracle_fail("replaced_by_not_newer", "overlapping calls left an entry older than the one stored before", input.clone());
+                    }
+                }
+            }
+        }
+        for (c, r) in calls.iter().zip(&results) {
+            let Call::Update { vs, batch, data, .. } = c else { continue };
+            if r.is_ok() {
+                // the stored entry is at least as new as every member entry of every accepted batch: together with
+                // "every new entry is a valid entry of an accepted batch" this is "stored = maximum of what was accepted"
+                for a in batch {
+                    if vs.contains(&a.k) && !announced.contains(&a.k) {
+                        match amap.get(&a.k) {
+                            Some(e) if ord(e) >= a.ord() => {}
+                            _ => out.oracle_fail(
+                                "replaced_by_not_newer",
+                                "overlapping update() calls: the book ends older than a member entry of an accepted batch (an entry was replaced by a non-newer one)",
+                                input.clone(),
+                            ),
+                        }
+                    }
+                }
+                self.seen.extend(batch.iter().cloned());
+            } else {
+                for d in data {
+                    if after_raw.values().any(|x| Arc::ptr_eq(x, d)) {
+                        out.oracle_fail("rejected_batch_changed_book", "a rejected batch handled concurrently left an entry in the book", input.clone());
+                    }
+                }
+            }
+        }
+        for (k, _) in &amap {
+            let changed = match before_raw.get(k) {
+                None => true,
+                Some(b) => !(Arc::ptr_eq(b, &after_raw[k]) || **b == *after_raw[k]),
+            };
+            if !changed || announced.contains(k) {
+                continue;
+            }
+            let mut found = false;
+            for (c, r) in calls.iter().zip(&results) {
+                let Call::Update { vs, batch, data, .. } = c else { continue };
+                if let Some(i) = data.iter().position(|d| Arc::ptr_eq(d, &after_raw[k])) {
+                    found = true;
+                    if r.is_err() || !batch[i].valid() || !vs.contains(k) {
+                        out.oracle_fail("forged_stored", "overlapping calls stored an entry that is forged / a non-member's / from a rejected batch", input.clone());
+                    }
+                }
+            }
+            if !found {
+                out.oracle_fail("not_from_batch", "a new entry is not an entry of any of the overlapping batches", input.clone());
+            }
+        }
+        json!({"class": "contended", "ok": true, "results": classes, "notified": notified, "book": Self::book_json(&after),
+               "_early": early, "_errs": results.iter().map(|r| r.as_ref().err().map(|e| e.chars().take(40).collect::<String>())).collect::<Vec<_>>()})
     }
 
     fn exec_converge(&mut self, out: &mut Out) -> Value {
@@ -770,6 +969,94 @@ impl Gen {
         ops.push(json!({"op": "announce", "k": k, "a": a3, "s": 1_700_000_009i64, "n": 0}));
     }
 
+    fn contended_op(calls: &[Value], poll: &[usize]) -> Value {
+        json!({"op": "contended", "calls": calls, "poll": poll})
+    }
+
+    /// overlapping calls on one book, in two queue orders (two books: stash / converge)
+    fn case_contended(&mut self, ops: &mut Vec<Value>) {
+        let vs = vec![0usize, 1, 2, 3, 4];
+        let t0 = 1_700_000_000i64;
+        let x = self.rng.gen_range(0..5usize);
+        let y = (x + 1 + self.rng.gen_range(0..4usize)) % 5;
+        let base = *[0u64, 1, 5, 1 << 32, U64MAX - 4].choose(&mut self.rng).unwrap();
+        // the ladder of X: strictly increasing, by version or by timestamp only
+        let by_ts = self.rng.gen_bool(0.3);
+        let mut ladder = vec![];
+        for i in 0..5u64 {
+            let a = self.addr();
+            ladder.push(if by_ts { AAnn::honest(x, (a, base, t0 + i as i64, 0)) } else { AAnn::honest(x, (a, base + i, t0 - i as i64, 0)) });
+        }
+        let ya = self.addr();
+        let y1 = AAnn::honest(y, (ya, 3, t0, 7));
+        let ya2 = self.addr();
+        let y2 = AAnn::honest(y, (ya2, 4, t0, 0));
+        // setup: the book holds X@ladder[0] (and sometimes Y)
+        let mut setup = vec![];
+        let mut first = vec![ladder[0].clone()];
+        if self.rng.gen_bool(0.5) {
+            first.push(y1.clone());
+        }
+        let mut sh = Shadow::default();
+        sh.apply(&vs, &first);
+        setup.push(Self::update_op(&vs, &first, true));
+        if self.rng.gen_bool(0.3) {
+            let b = self.batch(&sh, &vs, 1);
+            sh.apply(&vs, &b);
+            setup.push(Self::update_op(&vs, &b, false));
+        }
+        let upd = |b: Vec<AAnn>| json!({"op": "update", "vs": vs, "batch": b.iter().map(|a| a.json()).collect::<Vec<_>>()});
+        let variant = self.rng.gen_range(0..8);
+        let mut calls: Vec<Value> = match variant {
+            // same validator, two versions
+            0 | 1 => vec![upd(vec![ladder[1].clone()]), upd(vec![ladder[2].clone(), y2.clone()])],
+            // different validators
+            2 => vec![upd(vec![ladder[1].clone()]), upd(vec![y2.clone()])],
+            // a forged batch (valid fresh Y first, then forged fresh X) next to a valid one for X
+            3 => {
+                let f = self.forge(&ladder[3].clone(), None);
+                vec![upd(vec![y2.clone(), f]), upd(vec![ladder[1].clone()])]
+            }
+            // three versions of the same validator
+            4 => vec![upd(vec![ladder[1].clone()]), upd(vec![ladder[3].clone()]), upd(vec![ladder[2].clone(), y2.clone()])],
+            // a duplicated-key batch, a valid one, and a stale re-delivery
+            5 => vec![upd(vec![ladder[2].clone(), ladder[3].clone()]), upd(vec![ladder[1].clone()]), upd(vec![ladder[0].clone(), y2.clone()])],
+            // own announcement racing with a batch that carries a higher version of the same key
+            6 => {
+                let a = self.addr();
+                vec![json!({"op": "announce", "k": x, "a": a, "s": t0 + 50, "n": 0}), upd(vec![ladder[2].clone()])]
+            }
+            // random batches aimed at the setup state
+            _ => {
+                let k = self.rng.gen_range(2..=3);
+                (0..k)
+                    .map(|_| {
+                        let fam = *[1usize, 1, 2, 3, 5].choose(&mut self.rng).unwrap();
+                        let b = self.batch(&sh, &vs, fam);
+                        upd(b)
+                    })
+                    .collect()
+            }
+        };
+        let n = calls.len();
+        for node in 0..2 {
+            ops.extend(setup.iter().cloned());
+            let mut poll: Vec<usize> = (0..n).collect();
+            poll.shuffle(&mut self.rng);
+            ops.push(Self::contended_op(&calls, &poll));
+            ops.push(json!({"op": if node == 0 { "stash" } else { "converge" }}));
+            // the other queue order
+            if n == 2 {
+                calls.reverse();
+            } else {
+                let before = calls.clone();
+                while calls == before {
+                    calls.shuffle(&mut self.rng);
+                }
+            }
+        }
+    }
+
     /// two nodes, same committee: node A gets the batches in one order / partition, node B in another
     fn case_twins(&mut self, ops: &mut Vec<Value>) {
         let vs = if self.rng.gen_bool(0.7) { vec![0, 1, 2, 3, 4] } else { self.committee() };
@@ -847,8 +1134,9 @@ impl Prop for C18 {
         g.case_announce_top(&mut ops, U64MAX - 1);
         g.case_announce_top(&mut ops, U64MAX);
         for i in 0..opts.n {
-            match i % 4 {
-                3 => g.case_twins(&mut ops),
+            match i % 8 {
+                3 | 7 => g.case_twins(&mut ops),
+                1 | 5 => g.case_contended(&mut ops),
                 _ => g.case_mixed(&mut ops),
             }
         }
